@@ -240,6 +240,48 @@ func (g *Graph) DecorateInert(next func(n int) int) {
 	}
 }
 
+// InsertThrows puts an intermediate throw event WITHOUT event definition (a "none" event: it throws nothing anybody could
+// catch) in front of one or two tasks / exclusive gateways: all incoming flows of the chosen node now end at the event,
+// one flow leads from the event to the node. Every token that went to the node passes the event first — one per branch
+// when the node merges branches, one per round when it sits in a loop. Returns the number of events inserted.
+func (g *Graph) InsertThrows(next func(n int) int) int {
+	var cands []*Node
+	for _, n := range g.Nodes {
+		// (top level only: a sub-process TRIGGERS the throw events inside it when it is entered — they are entry
+		// points there, by the engine's design — which is not part of the modelled token game)
+		if len(n.In) == 0 || n.Attached != "" || n.Parent != "" {
+			continue
+		}
+		if strings.HasSuffix(n.Kind, "ask") || n.Kind == "exclusiveGateway" {
+			cands = append(cands, n)
+			if len(n.In) >= 2 { // merging nodes are the interesting ones
+				cands = append(cands, n, n)
+			}
+		}
+	}
+	done := 0
+	for k := 1 + next(2); k > 0 && len(cands) > 0; k-- {
+		x := cands[next(len(cands))]
+		rest := cands[:0]
+		for _, c := range cands {
+			if c != x {
+				rest = append(rest, c)
+			}
+		}
+		cands = rest
+		h := g.Add("intermediateThrowEvent", "", x.Parent)
+		for _, f := range g.Flows {
+			if f.Dst == x.ID {
+				f.Dst = h.ID
+			}
+		}
+		h.In, x.In = x.In, nil
+		g.Connect(h, x, nil)
+		done++
+	}
+	return done
+}
+
 // XML renders the graph as a BPMN document with a single process.
 func (g *Graph) XML() string {
 	var sb strings.Builder
